@@ -27,12 +27,12 @@ theorem lfOffsetsFrom_append_noLF (i : Nat) (p q : Bytes) (h : LF ∉ p) :
     congr 1; omega
 
 theorem newlineOffsets_cons (t : Token) (rest : List Token) :
-    newlineOffsets (t :: rest) = (if t.ty == .newline then [t.pos.off] else []) ++ newlineOffsets rest := by
+    newlineOffsets (t :: rest) = (if t.ty == .newline then [t.stop.off - 1] else []) ++ newlineOffsets rest := by
   simp only [newlineOffsets, List.filter_cons]
   split <;> simp
 
-/-- Every LF byte becomes exactly one Newline token, at its offset, in order — and there are no
-    other Newline tokens. -/
+/-- Every LF byte becomes exactly one Newline token, which ends with it, in order — and there
+    are no other Newline tokens. -/
 theorem lexS_newlines (C : Classes) (n : Nat) (z : Z) (hn : z.after.length ≤ n) :
     newlineOffsets (lexS C z) = lfOffsetsFrom z.before.length z.after := by
   induction n generalizing z with
@@ -60,7 +60,7 @@ theorem lexS_newlines (C : Classes) (n : Nat) (z : Z) (hn : z.after.length ≤ n
         simp only [List.append_nil] at this
         rw [hafter, this]
         simp [newlineOffsets, he, lfOffsetsFrom]
-      | newline sp hsp hafter hbefore hline hcol hstart hty hpl hpo hstop =>
+      | newline sp cr hsp hcr hafter hbefore hline hcol hstart hty hpl hpo hstop =>
         rw [hty] at he; exact absurd he (by decide)
     · rename_i hne
       have hlt := next_lt_of_ne_eof C z hne
@@ -76,9 +76,17 @@ theorem lexS_newlines (C : Classes) (n : Nat) (z : Z) (hn : z.after.length ≤ n
         have hty' : ((next C z).1.ty == TokType.newline) = false := by simpa using hty
         rw [hafter, lfOffsetsFrom_append_noLF _ _ _ hno, hbefore, hty']
         simp; congr 1; omega
-      | newline sp hsp hafter hbefore hline hcol hstart hty hpl hpo hstop =>
-        rw [hafter, lfOffsetsFrom_append_noLF _ _ _ (spaces_noLF hsp), hbefore, hty, hpo]
-        simp [lfOffsetsFrom]; congr 1; omega
+      | newline sp cr hsp hcr hafter hbefore hline hcol hstart hty hpl hpo hstop =>
+        have hno : LF ∉ sp ++ cr := by
+          intro hm
+          rcases List.mem_append.mp hm with hm | hm
+          · exact spaces_noLF hsp hm
+          · rcases hcr with rfl | rfl <;> simp at hm
+        rw [hafter, lfOffsetsFrom_append_noLF _ _ _ hno, hbefore, hty, hstop]
+        simp [lfOffsetsFrom, Z.position, hbefore]
+        constructor
+        · omega
+        · congr 1; omega
 
 theorem input_drop_before (z : Z) : z.input.drop z.before.length = z.after := by
   have : z.before.length = z.before.reverse.length := by simp
@@ -99,8 +107,8 @@ theorem first_gap {z : Z} {r : Token × Z} (h : Step z r) :
   | tok sp pre hsp hpre hafter hbefore hline hty hpl hpo =>
     rw [hafter, List.append_assoc]
     exact mem_take_prefix (by omega) hsp
-  | newline sp hsp hafter hbefore hline hcol hstart hty hpl hpo hstop =>
-    rw [hafter]
+  | newline sp cr hsp hcr hafter hbefore hline hcol hstart hty hpl hpo hstop =>
+    rw [hafter, List.append_assoc]
     exact mem_take_prefix (by omega) hsp
 
 theorem gaps_cons (input : Bytes) (prev : Nat) (t : Token) (rest : List Token) :
@@ -197,10 +205,12 @@ theorem step_lines {z : Z} {r : Token × Z} (L : Nat) (h : Step z r) (hinv : z.l
     rw [hpo, take_input ha, hpl, hline, hbefore, hinv]
     simp only [countLF_append, countLF_reverse, countLF_of_not_mem hpre, countLF_of_not_mem (spaces_noLF hsp)]
     omega
-  | newline sp hsp hafter hbefore hline hcol hstart hty hpl hpo hstop =>
-    have hb : r.2.before = [LF] ++ sp.reverse ++ z.before := by simp [hbefore]
-    rw [hpo, take_input hafter, hpl, hline, hb, hinv]
-    simp only [countLF_append, countLF_reverse, countLF_of_not_mem (spaces_noLF hsp)]
+  | newline sp cr hsp hcr hafter hbefore hline hcol hstart hty hpl hpo hstop =>
+    have ha : z.after = sp ++ (cr ++ LF :: r.2.after) := by rw [hafter, List.append_assoc]
+    have hb : r.2.before = [LF] ++ cr.reverse ++ sp.reverse ++ z.before := by simp [hbefore]
+    have hcr0 : countLF cr = 0 := by rcases hcr with rfl | rfl <;> decide
+    rw [hpo, take_input ha, hpl, hline, hb, hinv]
+    simp only [countLF_append, countLF_reverse, countLF_of_not_mem (spaces_noLF hsp), hcr0]
     simp [countLF]
     omega
 
@@ -259,17 +269,46 @@ theorem lexS_forall (C : Classes) (P : Token → Prop) (h : ∀ z, P (next C z).
       · exact h z
       · exact ih (next C z).2 (by omega) t ht
 
-/-- a Newline token spans exactly one byte and ends at column 1 of the next line -/
+/-- the same for facts that depend on the input the lexer is working on -/
+theorem lexS_forall_input (C : Classes) (input : Bytes) (P : Token → Prop)
+    (h : ∀ z, z.input = input → P (next C z).1) (n : Nat) (z : Z)
+    (hn : z.after.length ≤ n) (hi : z.input = input) : ∀ t ∈ lexS C z, P t := by
+  induction n generalizing z with
+  | zero =>
+    have h0 : z.after = [] := List.eq_nil_of_length_eq_zero (by omega)
+    rw [lexS_unfold]
+    have he : (next C z).1.ty = .eof := by rw [next_nil C h0]; rfl
+    simp only [he, if_true, List.mem_singleton]
+    intro t ht; subst ht; exact h z hi
+  | succ n ih =>
+    rw [lexS_unfold]
+    split
+    · intro t ht
+      simp only [List.mem_singleton] at ht
+      subst ht; exact h z hi
+    · rename_i hne
+      have hlt := next_lt_of_ne_eof C z hne
+      intro t ht
+      rcases List.mem_cons.mp ht with rfl | ht
+      · exact h z hi
+      · exact ih (next C z).2 (by omega) (by rw [(next_res C z).adv.input, hi]) t ht
+
+/-- a Newline token spans exactly one line end — one byte, or two of which the first is a
+    carriage return — and ends at column 1 of the next line -/
 theorem next_newline_shape (C : Classes) (z : Z) :
-    (next C z).1.ty = .newline →
-      (next C z).1.stop.off = (next C z).1.pos.off + 1 ∧ (next C z).1.stop.line = (next C z).1.pos.line + 1 ∧
-        (next C z).1.stop.col = 1 := by
+    (next C z).1.ty = .newline → newlineShape z.input (next C z).1 = true := by
   intro hty
   cases next_step C z with
   | tok sp pre hsp hpre hafter hbefore hline hty' hpl hpo => exact absurd hty hty'
-  | newline sp hsp hafter hbefore hline hcol hstart hty' hpl hpo hstop =>
-    rw [hstop, hpo, hpl]
-    simp [Z.position, hbefore, hline, hcol]
-    omega
+  | newline sp cr hsp hcr hafter hbefore hline hcol hstart hty' hpl hpo hstop =>
+    have hin : z.input[z.before.length + sp.length]? = (cr ++ LF :: (next C z).2.after)[0]? := by
+      have : z.before.length + sp.length = (z.before.reverse ++ sp).length := by simp
+      rw [Z.input, hafter, List.append_assoc, ← List.append_assoc z.before.reverse, this,
+        List.getElem?_append_right (Nat.le_refl _)]
+      simp
+    simp only [newlineShape, hstop, hpo, hpl, Z.position, hbefore, hline, hcol, hin]
+    rcases hcr with rfl | rfl
+    · simp; omega
+    · simp; omega
 
 end HL.Lex
